@@ -227,6 +227,8 @@ class DBusClientConnection (txdbus.protocol.BasicDBusProtocol):
 
         def add(k, v):
             if v is not None:
+                # inside the quotes an apostrophe is written '\''
+                v = str(v).replace("'", "'\\''")
                 l.append(f"{k}='{v}'")
 
         add('type', mtype)
